@@ -237,6 +237,13 @@ fn main() {
             let curve = arg(&args, "--curve").unwrap();
             let cap: usize = arg(&args, "--cap").unwrap().parse().unwrap();
             let parties: usize = arg(&args, "--parties").unwrap().parse().unwrap();
+            // a comma-separated list of curves: ONE process derives the tables and bases of several curves, in the given order
+            // (the generators of a curve do not depend on what else the process has done)
+            if curve.contains(',') {
+                let vs: Vec<Value> = curve.split(',').map(|cn| with_curve(cn, |c| c.gens_facts(cap, parties))).collect();
+                println!("{}", serde_json::to_string(&vs).unwrap());
+                return;
+            }
             let v = with_curve(&curve, |c| c.gens_facts(cap, parties));
             println!("{}", serde_json::to_string(&v).unwrap());
         }
